@@ -122,6 +122,11 @@ structure St where
   w : World := ⟨none, none⟩
   tree : Cmd.Tree := Cmd.Tree.empty
   cur : String := ""
+  /-- hostile-file stream: after an update that failed (the real code may keep some of its
+      writes in the buffer, the model keeps none) content observations print "tainted" on
+      both sides until the handle is replaced -/
+  taintMode : Bool := false
+  tainted : Bool := false
 
 /-- write the current file's disk image back into the tree -/
 def St.flush (st : St) : St :=
@@ -148,7 +153,7 @@ def doOp (st : St) (op : LibOp) : St × String :=
   let (w, ob) := st.w.step o op
   ({ st with w := w }, obsStr ob)
 
-def stepLib (st : St) (toks : List String) : Option (St × String) :=
+def stepLib0 (st : St) (toks : List String) : Option (St × String) :=
   match toks with
   | ["reset"] => some ({}, "ok")
   | ["resetfile"] => some ({ st with w := ⟨none, none⟩ }, "ok")
@@ -224,6 +229,25 @@ def stepLib (st : St) (toks : List String) : Option (St × String) :=
     | none => some (st, "none")
     | some d => some (st, s!"ok {hexOfBytes d}")
   | _ => none
+
+def stepLib (st : St) (toks : List String) : Option (St × String) :=
+  match toks with
+  | ["taintmode"] => some ({ st with taintMode := true }, "ok")
+  | _ =>
+    match stepLib0 st toks with
+    | none => none
+    | some (st', out) =>
+      match toks.head? with
+      | some "reset" => some (st', out)
+      | some "resetfile" | some "use" | some "create" | some "open" | some "setdisk" | some "rmdisk" | some "drop" =>
+        some ({ st' with taintMode := st.taintMode, tainted := false }, out)
+      | some "upd" | some "updmany" =>
+        if st.taintMode && out != "ok" && out != "nohandle" && !out.startsWith "panic" then
+          some ({ st' with tainted := true }, out)
+        else some (st', out)
+      | some "fetch" | some "raw" | some "view" =>
+        if st.tainted && !out.startsWith "panic" then some (st', "tainted") else some (st', out)
+      | _ => some (st', out)
 
 def decOut {α} (r : R (α × Bytes)) (f : α → String) : String :=
   match r with
